@@ -10,7 +10,7 @@ RULE = ('every ruleset of the finite families in coverage.bounds is run to exhau
         'non-trivial = ruleset with two pre-terminals of exactly equal probability or a repeated variable type; '
         'on-disk layer: rulesets written to disk, loaded by the real loader under every flag combination')
 ASSUMPTIONS = [
-    'in-memory grammar objects built with object.__new__(PcfgGrammar) behave like loaded ones for PcfgQueue (only .grammar/.base are read)',
+    'in-memory grammars are deep copies of a PcfgGrammar really constructed from a minimal on-disk ruleset, with .grammar/.base replaced: they behave like loaded ones for PcfgQueue (the on-disk layer goes through the real loader)',
     'float slack for "equals the product": (2n+2) ulp relative + n denormal steps (DESIGN 4.3)',
     'heap inspection reads PcfgQueue.p_queue when present; otherwise only the emitted sequence is checked',
 ]
